@@ -501,6 +501,7 @@ type runningFile struct {
 	Key     string
 	Data    []byte
 	States  []stateRec
+	CleanAt []uint64
 	ZeroLen []int
 	Garbage [][]byte
 }
@@ -772,6 +773,7 @@ func TestC05(t *testing.T) {
 	shard, nshards := ev.Shard()
 	workers := 4
 	nExh, nSamp := 1, 3
+	share := "" // path of the exhaustive file shared between quick shards
 	exhaustive := histParams{minStates: 6, minSize: 4096, maxSize: 8000, maxOps: 2000, persistW: 12, reopen: true, maxRows: 12}
 	sampled := histParams{minStates: 10, minSize: 12000, maxSize: 20000, maxOps: 4000, persistW: 8, reopen: true, longVals: true, maxRows: 25}
 	switch {
@@ -782,13 +784,23 @@ func TestC05(t *testing.T) {
 		exhaustive = histParams{minStates: 12, minSize: size, maxSize: size + 3000, maxOps: 20000, persistW: 10, reopen: true, longVals: true, maxRows: 40}
 		sampled.minSize, sampled.maxSize = 40000, 55000
 		sampled.maxOps = 40000
-	case nshards > 1 && shard == 0:
-		workers, nSamp = 3, 0
 	case nshards > 1:
-		workers, nExh = 2, 0
-		nSamp = (3 + nshards - 2) / (nshards - 1)
-		if shard > 3 {
-			nSamp = 0
+		// several quick processes: shard 0 builds the exhaustive file and
+		// publishes it next to the shard directories, every shard enumerates
+		// the offsets i with i % nshards == shard (separate address spaces:
+		// mmap / munmap do not scale inside one process); the sampled files
+		// go to shards 1..3
+		workers = 2
+		share = filepath.Join(filepath.Dir(filepath.Clean(os.Getenv("VERIF_SCRATCH"))), fmt.Sprintf("c05_exhaustive_seed%d.json", ev.Seed()))
+		if os.Getenv("VERIF_SCRATCH") == "" {
+			share = ""
+		}
+		nSamp = 0
+		if shard >= 1 && shard <= 3 {
+			nSamp = 1
+		}
+		if shard > 0 && share != "" {
+			nExh = 0
 		}
 	}
 	if n, _ := strconv.Atoi(os.Getenv("VERIF_C05_WORKERS")); n > 0 {
@@ -804,6 +816,9 @@ func TestC05(t *testing.T) {
 		return func(t *rapid.T) {
 			ncase++
 			key := fmt.Sprintf("%s/seed%d/shard%dof%d/%d", sub, ev.Seed(), shard, nshards, ncase)
+			if all && share != "" {
+				key = fmt.Sprintf("%s/seed%d/shared/%d", sub, ev.Seed(), ncase)
+			}
 			bf, err := buildFile(t, filepath.Join(dir, "build.db"), key, p)
 			unmapUnder(dir)
 			if err != nil {
@@ -821,6 +836,13 @@ func TestC05(t *testing.T) {
 			if all {
 				specs = allOffsets(bf, 1)
 				exhaustiveLens = append(exhaustiveLens, len(bf.Data))
+				if share != "" {
+					jb, _ := json.Marshal(runningFile{Key: bf.Key, Data: bf.Data, States: bf.States, CleanAt: bf.CleanAt,
+						ZeroLen: bf.zeroLen, Garbage: bf.garbage})
+					os.WriteFile(share+".tmp", jb, 0o644)
+					os.Rename(share+".tmp", share)
+					specs = slice(specs, shard, nshards)
+				}
 			} else {
 				specs = sampledOffsets(t, bf)
 			}
@@ -845,10 +867,39 @@ func TestC05(t *testing.T) {
 		rec.Set("exhaustive_files", len(exhaustiveLens))
 		rec.Set("exhaustive_file_bytes", sum(exhaustiveLens))
 	}
+	if nExh == 0 && share != "" {
+		// take this shard's slice of the file published by shard 0
+		var rf runningFile
+		for waited := 0; ; waited++ {
+			if b, err := os.ReadFile(share); err == nil && json.Unmarshal(b, &rf) == nil && len(rf.Data) > 0 {
+				break
+			}
+			if waited > 3000 { // 5 minutes
+				fmt.Println("VERIF-TIMEOUT property=C05 the exhaustive file of shard 0 did not appear")
+				t.Fatalf("no exhaustive file from shard 0")
+			}
+			time.Sleep(100 * time.Millisecond)
+		}
+		bf := &builtFile{Key: rf.Key, Data: rf.Data, States: rf.States, CleanAt: rf.CleanAt, zeroLen: rf.ZeroLen, garbage: rf.Garbage}
+		e.alwaysOpen = false
+		e.run(bf, slice(allOffsets(bf, 1), shard, nshards), workers)
+		rec.Set("exhaustive", true)
+	}
 	if nSamp > 0 {
 		rt.Check(t, rec, "sampled", nSamp, nSamp, prop("sampled", sampled, false))
 	}
 	e.report()
+}
+
+// slice returns the specs with index i % n == k.
+func slice(specs []imgSpec, k, n int) []imgSpec {
+	var r []imgSpec
+	for i, sp := range specs {
+		if i%n == k {
+			r = append(r, sp)
+		}
+	}
+	return r
 }
 
 func sum(a []int) int {
